@@ -415,6 +415,10 @@ fn run_group(rng: &mut Rng, stream: bool, id: &str, prof: &Profile) {
             let c = new_child(rng, &mut block, &mut key_of);
             block.ops.push(format!("i {c}"));
             let k = grp.insert(c);
+            if k == usize::MAX {
+                poisoned = true;
+                continue;
+            }
             let mk = mirror.insert();
             set_slot(c, k);
             key_of[c] = Some(k);
@@ -662,6 +666,9 @@ fn replay_group(stream: bool, keyed: bool, ops: &[String]) {
             "i" => {
                 let c: usize = ws[1].parse().unwrap();
                 let k = grp.insert(c);
+                if k == usize::MAX {
+                    continue;
+                }
                 let mk = mirror.insert();
                 set_slot(c, k);
                 key_of[c] = Some(k);
